@@ -544,7 +544,7 @@ pub fn run(ctx: &Ctx) -> ! {
         let report = vcore::run_single(ctx, move |_| scenario(gen(seed)));
         vcore::finish(ctx, report, fin());
     }
-    let n = ctx.pick(20_000, 400_000);
+    let n = ctx.pick(50_000, 800_000);
     let c2 = ctx.clone();
     let report = vcore::run_parallel(
         ctx,
